@@ -108,7 +108,13 @@ static void note_notify_child (nsync_note n, nsync_note parent) {
 				next = nsync_dll_next_ (n->children, p);
 				nsync_mu_lock (&child->note_mu);
 				if (child->disconnecting == 0) {
+					/* note_notify_child() may release child->note_mu
+					   while it waits for the child's own children;
+					   mark the child so that nsync_note_free(child)
+					   does not start disconnecting it meanwhile.  */
+					child->disconnecting++;
 					note_notify_child (child, n);
+					child->disconnecting--;
 				}
 				nsync_mu_unlock (&child->note_mu);
 			}
@@ -219,6 +225,12 @@ void nsync_note_free (nsync_note n) {
 	nsync_dll_element_ *p;
 	nsync_dll_element_ *next;
 	nsync_mu_lock (&n->note_mu);
+	if (n->disconnecting != 0) {
+		/* A notification of an ancestor is in the middle of disconnecting
+		   *n from its parent, and will clear n->parent.  Only that thread
+		   may rely on n->parent staying valid, so wait for it.  */
+		nsync_mu_wait (&n->note_mu, &not_disconnecting, n, NULL);
+	}
 	n->disconnecting++;
 	ASSERT (nsync_dll_is_empty_ (n->waiters));
 	parent = n->parent;
